@@ -69,22 +69,38 @@ def selectModules (graph : List SrcModule) (d : Discovered) : List SrcModule :=
   (graph.filter fun m => isInit m.path && pkgs.contains (pkgDir m.path))
   ++ (graph.filter fun m => !isInit m.path && files.contains m.path)
 
+/-- what `get_api` has computed when the walk is over -/
+structure ApiRun where
+  packageName : String
+  walked : List SrcModule
+  aliases : AliasTable
+  api : AnaResult
+  warnings : List String
+
 /-- `get_api`, up to and including the walk -/
-def getApi (i : ToolInput) : Except PyErr (String × List SrcModule × AliasTable × AnaResult × List String) := do
-  let (root, d) ← discoverFrom i.srcDir i.files i.isTestRun
-  let pkg := pathStem root
-  let mods := selectModules i.graph d
-  let aliases := getAliases pkg i.aliasFacts
-  let env : AEnv := { opts := i.opts, aliases := aliases, infoBases := i.infoBases }
-  let (r, ws) ← analyze env i.docRoot mods
-  pure (pkg, mods, aliases, r, ws)
+def getApi (i : ToolInput) : Except PyErr ApiRun :=
+  match discoverFrom i.srcDir i.files i.isTestRun with
+  | .error e => .error e
+  | .ok (root, d) =>
+    let pkg := pathStem root
+    let mods := selectModules i.graph d
+    let aliases := getAliases pkg i.aliasFacts
+    match analyze { opts := i.opts, aliases := aliases, infoBases := i.infoBases } i.docRoot mods with
+    | .error e => .error e
+    | .ok (r, ws) => .ok { packageName := pkg, walked := mods, aliases := aliases, api := r, warnings := ws }
 
 /-- `_run_stub_generator` -/
-def runTool (i : ToolInput) : Except PyErr ToolOutput := do
-  let (pkg, mods, aliases, r, ws) ← getApi i
-  let text ← apiJsonText pkg r
-  let gen ← runGenerator (r.toApi pkg) i.safe i.preexisting
-  pure { packageName := pkg, analysed := mods.map (·.path), aliases := aliases, api := r, warnings := ws,
-         apiFileName := pathStem i.srcDir ++ "__api.json", apiFileText := text, gen := gen }
+def runTool (i : ToolInput) : Except PyErr ToolOutput :=
+  match getApi i with
+  | .error e => .error e
+  | .ok a =>
+    match apiJsonText a.packageName a.api with
+    | .error e => .error e
+    | .ok text =>
+      match runGenerator (a.api.toApi a.packageName) i.safe i.preexisting with
+      | .error e => .error e
+      | .ok gen =>
+        .ok { packageName := a.packageName, analysed := a.walked.map (·.path), aliases := a.aliases, api := a.api,
+              warnings := a.warnings, apiFileName := pathStem i.srcDir ++ "__api.json", apiFileText := text, gen := gen }
 
 end StubGen
